@@ -6,6 +6,8 @@ package composite
 // update strategy map, dynamic Clientset, customize manager) is the real code.
 
 import (
+	"sync"
+
 	metav1 "k8s.io/apimachinery/pkg/apis/meta/v1"
 	"k8s.io/apimachinery/pkg/apis/meta/v1/unstructured"
 	"k8s.io/apimachinery/pkg/labels"
@@ -24,6 +26,7 @@ import (
 
 // verifHook is a deterministic, side-effect-free hook: a function of the request.
 type verifHook struct {
+	mu      sync.Mutex // hooks are called from parallel per-revision goroutines and concurrent syncs
 	enabled bool
 	fn      func(req *v1.CompositeHookRequest) (*v1.CompositeHookResponse, error)
 	Calls   []*v1.CompositeHookRequest
@@ -32,7 +35,9 @@ type verifHook struct {
 func (h *verifHook) IsEnabled() bool { return h.enabled }
 func (h *verifHook) Call(request api.WebhookRequest, response interface{}) error {
 	req := request.(*v1.CompositeHookRequest)
+	h.mu.Lock()
 	h.Calls = append(h.Calls, req)
+	h.mu.Unlock()
 	resp, err := h.fn(req)
 	if err != nil {
 		return err
